@@ -350,8 +350,10 @@ def _small_dtype_trace() -> List[Dict[str, Any]]:
 def _case(seed: int) -> Dict[str, Any]:
     from hv import gen, rt, synth
 
-    if seed < 0:
+    if seed == -1:
         return _run_case(seed, {0: _small_dtype_trace()})
+    if seed == -2:  # the call graph built twice over one loaded trace with more than 127 events (C13-D25: parent ids were cast to the height column's dtype, int8 after the first build)
+        return _run_case(seed, gen.gen_trace_set(5, n_ranks=1, steps=3, n_top=8, n_streams=2, p_launch=0.7, p_zero=0.0, min_launch_q=1, p_sync=0.0, noncomplete_events=False), builds=2)
     nthreads = 1 + seed % 3
     two_ranks = seed % 5 == 2  # one call graph over two ranks, the SECOND one is checked (per-rank bookkeeping must not leak across ranks)
     if two_ranks:
@@ -369,22 +371,23 @@ def _case(seed: int) -> Dict[str, Any]:
                     evs.append(synth.host_op("autograd::engine::evaluate_function: StartBackward", b0, 5, tid=2))
     if two_ranks:
         return _run_case(seed, per_rank, check_rank=1, ranks=None)
-    return _run_case(seed, per_rank)
+    return _run_case(seed, per_rank, builds=2 if seed % 4 == 1 else 1)
 
 
-def _run_case(seed: int, per_rank, check_rank: int = 0, ranks=(0,)) -> Dict[str, Any]:
+def _run_case(seed: int, per_rank, check_rank: int = 0, ranks=(0,), builds: int = 1) -> Dict[str, Any]:
     from hv import rt
 
     nthreads = len({e.get("tid") for e in per_rank[check_rank] if e.get("cat") in ("cpu_op", "user_annotation", "cuda_runtime")})
     fails: List[Dict[str, Any]] = []
     n = 0
-    inp = {"seed": seed, "events": per_rank, "call_graph_ranks": list(ranks) if ranks is not None else "all", "checked_rank": check_rank}
+    inp = {"seed": seed, "events": per_rank, "call_graph_ranks": list(ranks) if ranks is not None else "all", "checked_rank": check_rank, "call_graphs_built_on_the_loaded_trace": builds}
     with rt.trace_dir(per_rank) as d:
         try:
             from hta.common.trace_call_graph import CallGraph
 
             t = rt.lib(fails, "load_traces", inp, rt.load_trace, d, True, use_multiprocessing=False)
-            cg = rt.lib(fails, "CallGraph", inp, CallGraph, t, ranks=list(ranks) if ranks is not None else None)
+            for _ in range(builds):  # the last build is the one judged: the call graph is a function of the trace, not of earlier builds
+                cg = rt.lib(fails, "CallGraph", inp, CallGraph, t, ranks=list(ranks) if ranks is not None else None)
         except rt.LibFailure:
             return {"n_checks": 1, "fails": fails, "nontrivial": True}
         df = cg.trace_data.get_trace(check_rank)
@@ -490,9 +493,9 @@ def bounded(ctx):
     from hv import rt
 
     n = 48 if not ctx.thorough else 600
-    res = rt.pmap(_case, [-1] + [ctx.seed * 521 + i for i in range(n)], ctx.procs)
-    return rt.summarise(res, f"{PROP}.bounded", f"one hand-written trace whose duration column is int8 while an operator's kernels sum to 180 + {n} generated traces (1-3 host threads incl. an autograd thread, kernels launched at several depths and on 1-2 streams, small durations "
-                        "so that the duration column is int8/int16, backward annotations) loaded through Trace.load_traces and CallGraph(trace, ranks=[0])")
+    res = rt.pmap(_case, [-1, -2] + [ctx.seed * 521 + i for i in range(n)], ctx.procs)
+    return rt.summarise(res, f"{PROP}.bounded", f"one hand-written trace whose duration column is int8 while an operator's kernels sum to 180, one 246-event trace whose call graph is built twice, + {n} generated traces (1-3 host threads incl. an autograd thread, kernels launched at several depths and on 1-2 streams, small durations "
+                        "so that the duration column is int8/int16, backward annotations) loaded through Trace.load_traces and CallGraph(trace, ranks=[0]); every fourth one builds the call graph twice and judges the second")
 
 
 def units(ctx):
